@@ -53,7 +53,7 @@ RULE = ("Hypothesis-generated (source kind x hierarchy depth x masks per level x
         "non-trivial = filtered export whose selection is neither empty nor full, "
         "holds more events than one export chunk of a requested non-scalar feature "
         "and is not a multiple of that chunk size; distinct = sha1 of the spec")
-BUDGET = {"quick": 960, "thorough": 12000}
+BUDGET = {"quick": 1920, "thorough": 16000}
 ESSENTIAL = ["src:dict", "src:lazy", "src:hdf5", "src:short", "src:basin", "src:tdms",
              "depth:1", "depth:2", "sel:empty", "sel:full", "sel:single",
              "sel:c-1", "sel:c", "sel:c+1", "sel:>2c", "unfiltered",
